@@ -120,9 +120,8 @@ def build(c, keep=None):
     elif form == "wxh":
         src = "%sx%s" % (X.dec(c["W"] * u), X.dec(c["H"] * u))
     else:
-        fd, path = tempfile.mkstemp(suffix=".yaml", prefix="die")
-        with os.fdopen(fd, "w") as f:
-            f.write(D.die_text(c, False))
+        from gen import files
+        path = files.write(c["W"] + 3 * c["H"], D.die_text(c, False))
         try:
             return Die(path, netlist) if netlist is not None else Die(path)
         finally:
@@ -194,6 +193,23 @@ def run_valid(c):
         if sorted(key(r) for r in got) != exp:
             raise Violation("%s reported as %s, the description says %s" % (name, sorted(key(r) for r in got), exp), "inputs-changed")
     cls = [c["form"]]
+    # the other access path to the same regions: floorplanning_rectangles() = (specialised + ground, fixed); asking for it (twice)
+    # leaves what the die reports as it was
+    state0 = {name: sorted(key(r) for r in getattr(die, name)) for name in ("ground_regions", "specialized_regions", "blockages", "fixed_regions")}
+    for rep in (1, 2):
+        try:
+            refinable, fixed_rs = die.floorplanning_rectangles()
+        except Exception as e:
+            raise Violation("floorplanning_rectangles() raised %s: %s" % (type(e).__name__, e), "floorplanning-raised")
+        if sorted(key(r) for r in refinable) != sorted(state0["specialized_regions"] + state0["ground_regions"]) or \
+                sorted(key(r) for r in fixed_rs) != state0["fixed_regions"]:
+            raise Violation("floorplanning_rectangles() (call %d) returns %d refinable and %d fixed rectangles; the die reports %d specialised + %d ground and %d fixed" % (
+                rep, len(refinable), len(fixed_rs), len(state0["specialized_regions"]), len(state0["ground_regions"]), len(state0["fixed_regions"])),
+                "floorplanning-differs")
+        now = {name: sorted(key(r) for r in getattr(die, name)) for name in state0}
+        if now != state0:
+            raise Violation("after floorplanning_rectangles() the die reports other regions: %s were %s" % (
+                {k: len(v) for k, v in now.items()}, {k: len(v) for k, v in state0.items()}), "getter-alters-the-die")
     if c["form"] == "tree":
         # the description is the caller's object: it is still the same description afterwards and is accepted again
         if keep["src"] != D.die_tree(c):
